@@ -525,3 +525,34 @@ Qed.
    data and never sees the borrow on a later channel *)
 Lemma scan_or_misses_later_borrow : scan_from orb [(true, 0); (false, 1)] false false = (true, false).
 Proof. reflexivity. Qed.
+
+(* ---------- a connection with a live borrow can always be parked ---------- *)
+Lemma expired_capacity_ge : forall buffer maxb, maxb <= expired_capacity buffer maxb /\ buffer <= expired_capacity buffer maxb.
+Proof.
+  intros buffer maxb. unfold expired_capacity.
+  assert (E : cap_arg_is_sized && cap_size_is_max = true) by (vm_compute; reflexivity).
+  rewrite E. destruct (Nat.leb maxb buffer) eqn:El; [apply Nat.leb_le in El|apply Nat.leb_gt in El]; lia.
+Qed.
+
+Lemma all_borrowed_sum : forall (l : list econn), existsb (fun e => Nat.eqb (snd e) 0) l = false ->
+  List.length l <= list_sum (map snd l).
+Proof.
+  induction l as [|[d b] l IH]; cbn [existsb map snd List.length]; intros E; [cbn; lia|].
+  apply orb_false_iff in E; destruct E as [E1 E2]. apply Nat.eqb_neq in E1. specialize (IH E2).
+  rewrite list_sum_cons. lia.
+Qed.
+
+Lemma park_never_fatal : forall buffer maxb (l : list econn) (c : econn), 0 < snd c ->
+  list_sum (map snd l) + snd c <= maxb -> park (expired_capacity buffer maxb) l c <> ParkFatalPanic.
+Proof.
+  intros buffer maxb l c Hc Hsum. unfold park.
+  match goal with |- context [if ?b then Parked else _] => destruct b eqn:El end; [discriminate|].
+  match goal with |- context [if ?b then ParkedEvictingIdle else _] => destruct b end; [discriminate|].
+  match goal with |- context [if ?b then _ else NewDiscarded] => destruct b end; [|discriminate].
+  match goal with |- context [if ?b then ParkedDiscardingData else _] => destruct b eqn:Ee end; [discriminate|]. intros _.
+  apply Nat.ltb_ge in El. pose proof (all_borrowed_sum l Ee). destruct (expired_capacity_ge buffer maxb). lia.
+Qed.
+
+(* with the raw buffer as capacity (buffer 1 < max borrowed samples 2) the second borrowed connection is fatal *)
+Lemma park_raw_buffer_fatal : park 1 [(false, 1)] (false, 1) = ParkFatalPanic.
+Proof. reflexivity. Qed.
